@@ -317,8 +317,8 @@ def obligations(tier, seed):
             for n in ((2,) if quick else (2, 3)):
                 perms = [p for p in itertools.permutations(range(n)) if list(p) != list(range(n))]
                 if n == 3:  # (3 rows: the reversal and one rotation, on three games - every further row multiplies the paths by the sort's branching)
-                    if g not in ("osu", "qua", "bms"):
-                        continue
+                    if g not in ("osu", "qua", "bms") or opname in ("scroll_speed", "scroll_speed-override", "full_ln", "convert-QuaToSM"):
+                        continue  # (these do not finish within the time budget with 3 rows per list: they stay at 2)
                     perms = [(2, 1, 0), (1, 2, 0)]
                 for how in HOWS:
                     for perm in (perms if how in ("construct", "append", "concat") else perms[:1]):
